@@ -506,7 +506,12 @@ impl<A: Zeroize + Bytes + Default, PM: traits::ProtectMode> Lock<A, PM>
 {
     fn mlock(mut self) -> Result<Protected<A, PM, traits::Locked>, std::io::Error> {
         self.swap_some_or_err(|old| {
-            dryoc_mlock(old.a.as_slice())?;
+            if let Err(err) = dryoc_mlock(old.a.as_slice()) {
+                // A refused mlock() can still leave the range flagged as locked
+                // (e.g. on a no-access region): undo it so nothing stays locked.
+                dryoc_munlock(old.a.as_slice()).ok();
+                return Err(err);
+            }
             // update internal state
             old.lm = int::LockMode::Locked;
             Ok(Protected::<A, PM, traits::Locked>::new())
